@@ -33,11 +33,20 @@ structure Obs where
   stuck : Bool            -- the call did not return while only calls on other keys were being held
   panicked : Bool := false  -- the call panicked
   spanic : Bool := false    -- scripted: the function panics (outside the property's quantifier; see Props.lean)
+  goexit : Bool := false    -- the call's goroutine was ended by `runtime.Goexit` (observed `panic=2`)
+  pk : Nat := 1             -- scripted: how the function ends abnormally (1 panic(string), 2 panic(error value), 3 runtime.Goexit)
+  ek : Nat := 1             -- scripted: class of the error value (1 pointer, 2 wrapped, 3 value-typed, 4 typed nil)
+  ep : Nat := 0             -- the public entry point of the user the call went through
+  nilv : Bool := false      -- scripted: the function returns (nil, nil)
+  cx : Nat := 0             -- scripted: the context passed to a ...Ctx entry point (0 Background, 1 far deadline, 2 cancelled)
+  lkerr : Bool := false     -- observed: the call returned the lookup error of its flight (`err=lk`: context.Canceled)
   deriving Repr
 
 def Obs.ran (o : Obs) : Bool := o.runs > 0
 /-- ResourceManager: this call's `create` ran and succeeded (scripted: no error, no panic). -/
-def Obs.created (o : Obs) : Bool := o.runs > 0 && !o.serr && !o.spanic
+def Obs.created (o : Obs) : Bool := o.runs > 0 && (!o.serr || o.ek = 5) && !o.spanic
+/-- the loader failed with an error that is handed to the overlapping callers and not cached. -/
+def Obs.failed (o : Obs) : Bool := o.serr && o.ek ≠ 5
 
 /-- executions of two different calls on the same key must not overlap. -/
 def overlapping (a b : Obs) : Bool :=
@@ -61,7 +70,9 @@ def noStaleViolation (h : List Obs) (r : Obs) : Option String :=
   match r.val with
   | none =>
     -- the zero values: only as joiner of a flight whose function panicked (what the code does; `sf_panic_joiners_zero`)
-    if !r.ran && r.err.isNone && h.any (fun l => l.key = r.key && l.ran && l.spanic && l.id ≠ r.id && callsOverlap l r) then none
+    if !r.ran && r.err.isNone && h.any (fun l => l.key = r.key && l.ran && (l.spanic || l.nilv) && l.id ≠ r.id && callsOverlap l r) then none
+    -- … or the caller's own execution returned (nil, nil)
+    else if r.ran && r.nilv && r.err.isNone then none
     else some s!"no-stale: call {r.id} (key {r.key}) got a value that no execution produced"
   | some v =>
     match h.find? (·.id = v) with
@@ -84,7 +95,7 @@ def freshViolation (r : Obs) : Option String :=
   | some f =>
     if f && !r.ran then some s!"one-fresh: call {r.id} is reported fresh but did not execute"
     else if !f && r.ran then some s!"one-fresh: call {r.id} executed but is not reported fresh"
-    else if f && r.val ≠ some r.id then some s!"one-fresh: call {r.id} is fresh but returns the result of another execution"
+    else if f && r.val ≠ (if r.nilv then none else some r.id) then some s!"one-fresh: call {r.id} is fresh but returns the result of another execution"
     else none
 
 def stuckViolation (r : Obs) : Option String :=
@@ -96,10 +107,24 @@ def panicViolation (r : Obs) : Option String :=
   if r.panicked && !(r.ran && r.spanic) then
     some s!"panic: call {r.id} on key {r.key} panicked although its own function did not" else none
 
+/-- how a call may end abnormally: by `runtime.Goexit` iff its OWN function ran and called it (the deferred cleanup runs,
+nothing is returned to anybody on that goroutine); by a panic otherwise (own function's panic, or a joiner's type
+assertion).  A call whose function called Goexit cannot return. -/
+def exitKindViolation (r : Obs) : Option String :=
+  if r.goexit && !(r.ran && r.spanic && r.pk = 3) then
+    some s!"panic: call {r.id} on key {r.key} was ended by runtime.Goexit although its own function did not call it"
+  else if r.ran && r.spanic && r.pk = 3 && !r.goexit && !r.stuck then
+    some s!"panic: the function of call {r.id} on key {r.key} called runtime.Goexit but the call ended differently (panicked={r.panicked})"
+  else if r.ran && r.spanic && r.pk ≠ 3 && !r.panicked && !r.stuck then
+    some s!"panic: the function of call {r.id} on key {r.key} panicked but the call returned normally (a swallowed panic)"
+  else none
+
 def sfViolations (h : List Obs) : List (Nat × String) :=
   exclusiveViolations h
-  ++ h.filterMap (fun r => if r.panicked then none else (noStaleViolation h r).map (r.line, ·))
-  ++ h.filterMap (fun r => if r.panicked then none else (freshViolation r).map (r.line, ·))
+  ++ h.filterMap (fun r => (exitKindViolation r).map (r.line, ·))
+  -- (a call that panicked or never returned has no result to judge: `panic:` / `stuck:` report those)
+  ++ h.filterMap (fun r => if r.panicked || r.stuck then none else (noStaleViolation h r).map (r.line, ·))
+  ++ h.filterMap (fun r => if r.panicked || r.stuck then none else (freshViolation r).map (r.line, ·))
   ++ h.filterMap (fun r => if r.runs > 1 then some (r.line, s!"exclusive: function of call {r.id} executed {r.runs} times") else none)
   ++ h.filterMap (fun r => (stuckViolation r).map (r.line, ·))
   ++ h.filterMap (fun r => (panicViolation r).map (r.line, ·))
@@ -107,19 +132,32 @@ def sfViolations (h : List Obs) : List (Nat × String) :=
 /-- LockedCalls: own function exactly once, own result. -/
 def ownFnViolation (r : Obs) : Option String :=
   if r.runs ≠ 1 then some s!"own-fn-once: function of call {r.id} (key {r.key}) executed {r.runs} times"
-  else if r.panicked then none    -- the caller's own function panicked (see `panicViolation`): nothing is returned
-  else if r.val ≠ some r.id then some s!"own-fn-once: call {r.id} returned the value of {r.val}"
+  else if r.panicked || r.stuck then none    -- the caller's own function panicked (`panicViolation`) / the call never returned (`stuckViolation`): nothing is returned
+  else if r.val ≠ (if r.nilv then none else some r.id) then some s!"own-fn-once: call {r.id} returned the value of {r.val}"
   else if r.err ≠ (if r.serr then some r.id else none) then some s!"own-fn-once: call {r.id} returned the error of {r.err}"
   else none
 
 def lcViolations (h : List Obs) : List (Nat × String) :=
   exclusiveViolations h
+  ++ h.filterMap (fun r => (exitKindViolation r).map (r.line, ·))
   ++ h.filterMap (fun r => (ownFnViolation r).map (r.line, ·))
   ++ h.filterMap (fun r => (stuckViolation r).map (r.line, ·))
   ++ h.filterMap (fun r => (panicViolation r).map (r.line, ·))
 
+/-- a flight whose lookup fails (`Cfg.lerr`, row g3: `cacheNode.doTake` with a cancelled context) ends with that error for
+its leader and every joiner, and runs no loader. -/
+def lookupErrViolation (h : List Obs) (r : Obs) : Option String :=
+  if !r.lkerr then none
+  else if r.ran then some s!"rm-error: the loader of call {r.id} (key {r.key}) ran although the call returned its flight's lookup error"
+  else if r.val.isSome || r.err.isSome then some s!"rm: call {r.id} returned a lookup error and something else"
+  else if r.cx = 2 then none
+  else if h.any (fun l => l.id ≠ r.id && l.key = r.key && l.cx = 2 && l.lkerr && !l.ran && callsOverlap l r) then none
+  else some (s!"rm-error: call {r.id} (key {r.key}) got a lookup (context) error although neither its own context was cancelled " ++
+             "nor that of an overlapping flight leader it could have joined")
+
 /-- ResourceManager: `serr` = scripted failure of `create`; a successful `create` returns the call's id as instance. -/
 def rmCallViolation (nilJoin : Bool) (inj : List (Nat × Nat)) (h : List Obs) (r : Obs) : Option String :=
+  if r.lkerr then lookupErrViolation h r else
   let created := h.filter fun c => c.key = r.key && c.created
   match inj.lookup r.key with
   | some n =>
@@ -130,11 +168,20 @@ def rmCallViolation (nilJoin : Bool) (inj : List (Nat × Nat)) (h : List Obs) (r
   match r.val, r.err with
   | some v, none =>
     if created.any (·.id = v) then none
-    else some s!"rm-same-instance: call {r.id} (key {r.key}) got instance {v} which no successful create of that key made"
+    else if v = 800000 then
+      some s!"rm-not-found: call {r.id} (key {r.key}) got the not-found error although no query of that key reported not-found"
+    -- the harness overwrites a caller's destination with 900000 + call id once that caller's call has returned
+    else if v ≥ 900000 then
+      some (s!"rm-snapshot: call {r.id} (key {r.key}) was handed the content of the destination variable of call {v - 900000} as it was " ++
+            "AFTER that call had returned: the shared result aliases the leader's memory instead of being a snapshot made inside the execution")
+    else match h.find? (fun c => c.id = v && c.created) with
+      | some c => some (s!"rm-snapshot: call {r.id} (key {r.key}) got instance {v}, which the create of call {c.id} made for key {c.key}: " ++
+                        "not a value any execution for its own key produced")
+      | none => some s!"rm-same-instance: call {r.id} (key {r.key}) got instance {v} which no successful create of that key made"
   | none, some e =>
     match h.find? (·.id = e) with
     | some l =>
-      if l.key = r.key && l.ran && l.serr && !l.spanic && (l.id = r.id || callsOverlap l r) then none
+      if l.key = r.key && l.ran && l.failed && !l.spanic && (l.id = r.id || callsOverlap l r) then none
       else some s!"rm-error: call {r.id} (key {r.key}) got the error of create {e} which it may not get"
     | none => some s!"rm-error: call {r.id} got an unknown error {e}"
   | none, none =>
@@ -162,8 +209,9 @@ def rmPanicViolation (h : List Obs) (r : Obs) : Option String :=
 
 def rmViolations (nilJoin : Bool) (inj : List (Nat × Nat)) (h : List Obs) : List (Nat × String) :=
   exclusiveViolations h
+  ++ h.filterMap (fun r => (exitKindViolation r).map (r.line, ·))
   ++ rmKeyViolations h
-  ++ h.filterMap (fun r => if r.panicked then none else (rmCallViolation nilJoin inj h r).map (r.line, ·))
+  ++ h.filterMap (fun r => if r.panicked || r.stuck then none else (rmCallViolation nilJoin inj h r).map (r.line, ·))
   ++ h.filterMap (fun r => if r.runs > 1 then some (r.line, s!"rm: create of call {r.id} executed {r.runs} times") else none)
   ++ h.filterMap (fun r => (stuckViolation r).map (r.line, ·))
   ++ h.filterMap (fun r => (rmPanicViolation h r).map (r.line, ·))
